@@ -1364,8 +1364,10 @@ impl<'a, 'b, W: Write> Serializer for &'a mut YamlSerializer<'b, W> {
             // Ensure that if the value is another variant or a mapping/sequence,
             // it indents under this variant label rather than the parent map key.
             let prev_map_depth = self.current_map_depth.replace(base + 1);
+            let prev_after_dash = std::mem::replace(&mut self.current_map_after_dash, false);
             let res = value.serialize(&mut *self);
             self.current_map_depth = prev_map_depth;
+            self.current_map_after_dash = prev_after_dash;
             return res;
         }
         // Otherwise (top-level or sequence context).
@@ -1384,12 +1386,19 @@ impl<'a, 'b, W: Write> Serializer for &'a mut YamlSerializer<'b, W> {
         // value indents under the variant label rather than aligning with the list indentation.
         // SeqSer stores the dash's indentation depth in `after_dash_depth`.
         if let Some(d) = self.after_dash_depth.take() {
+            // The variant label sits two columns after the dash, like the first key of a
+            // mapping that starts inline after a dash.
             let prev_map_depth = self.current_map_depth.replace(d + 1);
+            let prev_after_dash = std::mem::replace(&mut self.current_map_after_dash, true);
             let res = value.serialize(&mut *self);
             self.current_map_depth = prev_map_depth;
+            self.current_map_after_dash = prev_after_dash;
             res
         } else {
-            value.serialize(&mut *self)
+            let prev_after_dash = std::mem::replace(&mut self.current_map_after_dash, false);
+            let res = value.serialize(&mut *self);
+            self.current_map_after_dash = prev_after_dash;
+            res
         }
     }
 
